@@ -191,7 +191,7 @@ package priority
 
 //@ func (*Discipline).resetTactic
 //@   requires [*] dsc != nil && dsc.tactic != nil
-//@   modifies content(dsc.tactic)
+//@   modifies [C01] content(dsc.tactic)
 //@   ensures [* C01 C15] msum(dsc.tactic) == 0 && (forall k :: dsc.tactic[k] == 0)
 //@   loop 0
 //@     invariant [*] forall k :: in($visited, k) ==> dsc.tactic[k] == 0
@@ -200,7 +200,7 @@ package priority
 //@   requires [*] WF(dsc)
 //@   ensures [C05] result ==> (forall k :: !in(pset(dsc.priorities, len(dsc.priorities)), k) ==> dsc.tactic[k] == 0)
 //@   ensures [*] WF(dsc)
-//@   modifies content(dsc.tactic)
+//@   modifies [C01] content(dsc.tactic)
 //@   ensures [* C01] result ==> msum(dsc.tactic) == vacants
 //@   ensures [C05 C06] within-shares-means-proceed: ((forall j :: 0 <= j && j < len(dsc.priorities) ==> dsc.actual[dsc.priorities[j]] <= dsc.strategic[dsc.priorities[j]]) && vacants == gH - msum(dsc.actual)) ==> result
 //@   ensures [C05] result ==> (forall j :: 0 <= j && j < len(dsc.priorities) ==> dsc.tactic[dsc.priorities[j]] == dsc.strategic[dsc.priorities[j]] - dsc.actual[dsc.priorities[j]])
@@ -215,7 +215,7 @@ package priority
 //@ func (*Discipline).updateUncrowded
 //@   requires [*] WF(dsc)
 //@   ensures [*] WF(dsc)
-//@   modifies dsc.uncrowded, anyelems(dsc.uncrowded)
+//@   modifies [C01] dsc.uncrowded, anyelems(dsc.uncrowded)
 //@   ensures [* C15] strictlyDesc(dsc.uncrowded) && allIn(dsc.uncrowded, gPset)
 //@   ensures [*] dsc.uncrowded.arr == 0 || dsc.uncrowded.arr != dsc.priorities.arr
 //@   loop 0
@@ -226,7 +226,7 @@ package priority
 //@ func (*Discipline).updateUseful
 //@   requires [*] WF(dsc)
 //@   ensures [*] WF(dsc)
-//@   modifies dsc.useful, anyelems(dsc.useful)
+//@   modifies [C01] dsc.useful, anyelems(dsc.useful)
 //@   ensures [* C15] strictlyDesc(dsc.useful) && allIn(dsc.useful, gPset)
 //@   ensures [*] dsc.useful.arr == 0 || dsc.useful.arr != dsc.priorities.arr
 //@   loop 0
@@ -237,7 +237,7 @@ package priority
 //@ func (*Discipline).updateUsefulLikeUncrowded
 //@   requires [*] WF(dsc)
 //@   ensures [*] WF(dsc)
-//@   modifies dsc.useful, anyelems(dsc.useful)
+//@   modifies [C01] dsc.useful, anyelems(dsc.useful)
 //@   ensures [* C15] strictlyDesc(dsc.useful) && allIn(dsc.useful, gPset)
 //@   ensures [*] dsc.useful.arr == 0 || dsc.useful.arr != dsc.priorities.arr
 //@   loop 0
@@ -253,7 +253,7 @@ package priority
 //@   requires [*] WF(dsc)
 //@   ensures [*] WF(dsc)
 //@   requires [* C15] vacants <= gH
-//@   modifies content(dsc.tactic), dsc.uncrowded, anyelems(dsc.uncrowded), gDivErr
+//@   modifies [C01] content(dsc.tactic), dsc.uncrowded, anyelems(dsc.uncrowded), gDivErr
 //@   ensures [* C01] result1 == nil ==> (msum(dsc.tactic) == 0 || msum(dsc.tactic) == vacants)
 //@   ensures [C02 C07 C15] (gDivErr && !old(gDivErr)) ==> result1 == ErrDividerBad
 //@   ensures [C02 C07 C15] old(gDivErr) ==> gDivErr
@@ -265,7 +265,7 @@ package priority
 //@   requires [C05] SAT(dsc)
 //@   ensures [C05] result1 == nil && (result0 ==> ROUND(dsc)) && SAT(dsc)
 //@   ensures [*] WF(dsc)
-//@   modifies content(dsc.tactic), dsc.uncrowded, anyelems(dsc.uncrowded), gDivErr
+//@   modifies [C01] content(dsc.tactic), dsc.uncrowded, anyelems(dsc.uncrowded), gDivErr
 //@   ensures [* C01] (result1 == nil && result0) ==> RINV(dsc)
 //@   ensures [C02 C07 C15] (gDivErr && !old(gDivErr)) ==> result1 == ErrDividerBad
 //@   ensures [C02 C07 C15] old(gDivErr) ==> gDivErr
@@ -415,7 +415,7 @@ package priority
 //@   ensures [C05] nothing-left: forall k :: dsc.tactic[k] == 0
 //@   ensures [C05] ROUND(dsc)
 //@   requires [* C01] RINV(dsc)
-//@   modifies content(dsc.tactic), dsc.useful, anyelems(dsc.useful), gDivErr
+//@   modifies [C01] content(dsc.tactic), dsc.useful, anyelems(dsc.useful), gDivErr
 //@   ensures [*] WF(dsc)
 //@   ensures [* C01] result1 == nil ==> RINV(dsc)
 //@   ensures [C02 C07 C15] (gDivErr && !old(gDivErr)) ==> result1 == ErrDividerBad
